@@ -24,6 +24,9 @@ Hence successive uplinks of one session carry strictly increasing counters until
 * `history_no_counter_reuse`: any two uplinks of one session with no reported expiry between them
   carry different (strictly increasing) 32-bit counters;
 * `history_fcnt_32bit`: the counter never wraps — every uplink counter is ≤ 2^32 − 1;
+* `history_session_id`: along every join-free stretch of a history the session keeps its DevAddr and
+  key identities and every uplink carries that DevAddr — so strictly increasing counters mean no
+  (key, DevAddr, FCnt) triple is ever used twice;
 * `join_starts_fresh`: after ABP activation / an OTAA attempt the MAC holds exactly
   `Session.new` of the activation (counters 0, keys of the accepted JoinAccept) or is still joining.
 Observation (not claimed by the property text, and FALSE on the model as on the code): once
@@ -787,6 +790,263 @@ theorem join_starts_fresh {σ} (g : Rng σ) (m m' : MacState) (rs rs' : σ) (ev 
       exact classACycle_otaa m1 ot hot rx1 rx2 mp1 mp2 r dl _ hcy
   | _ => trivial
 
+/-! ## within a session address and keys never change -/
+
+/-- the identity of a session: address and key identities -/
+def sid (s : Session) : Nat × Nat × Nat := (s.devAddr, s.nwkKey, s.appKey)
+
+theorem rx2Complete_sid (s : Session) (cfg : Config) (r : RegionId) : sid (rx2Complete s cfg r).2.1 = sid s := by
+  unfold rx2Complete
+  by_cases h1 : (s.fcntUp == 0xFFFFFFFF) = true
+  · simp [h1]
+  · simp only [h1, Bool.false_eq_true, if_false]
+    by_cases h2 : cfg.adrEnabled = true
+    · simp only [h2, if_true]
+      by_cases h3 : min (s.adrAckCnt + 1) 0xFFFFFFFF ≥ Gen.Session.ADR_ACK_LIMIT.toNat + Gen.Session.ADR_ACK_DELAY.toNat
+      · simp only [h3, if_true]
+        by_cases h4 : ((min (s.adrAckCnt + 1) 0xFFFFFFFF - Gen.Session.ADR_ACK_LIMIT.toNat) % Gen.Session.ADR_ACK_DELAY.toNat == 0) = true
+        · simp only [h4, if_true]
+          cases nextLowerDatarate r cfg.dataRate <;> rfl
+        · simp only [h4, Bool.false_eq_true, if_false]; rfl
+      · simp only [h3, if_false]; rfl
+    · simp only [h2, Bool.false_eq_true, if_false]; rfl
+
+theorem sessionHandleRx_sid (s : Session) (cfg : Config) (region : RegionState) (d : RxData) (mp : Nat) (snr : Int)
+    (ig : Bool) (o : RxOut) (s' : Session) (cfg' : Config) (region' : RegionState)
+    (h : sessionHandleRx s cfg region d mp snr ig = .ok (o, s', cfg', region')) : sid s' = sid s := by
+  unfold sessionHandleRx at h
+  by_cases hlen : d.len > mp + 5
+  · simp only [hlen, if_true] at h
+    cases ig
+    · simp only [Bool.false_eq_true, if_false, pure, Except.pure, Except.ok.injEq, Prod.mk.injEq] at h
+      obtain ⟨_, rfl, _, _⟩ := h
+      exact rx2Complete_sid s cfg region.id
+    · simp only [if_true, pure, Except.pure, Except.ok.injEq, Prod.mk.injEq] at h
+      obtain ⟨_, rfl, _, _⟩ := h
+      rfl
+  · simp only [hlen, if_false] at h
+    cases hn : nextFcntDown s.fcntDown d.fcnt16 with
+    | none =>
+      simp only [hn, pure, Except.pure, Except.ok.injEq, Prod.mk.injEq] at h
+      obtain ⟨_, rfl, _, _⟩ := h
+      rfl
+    | some N =>
+      simp only [hn] at h
+      by_cases hm : (d.micFcnt != some N) = true
+      · simp only [hm, if_true, pure, Except.pure, Except.ok.injEq, Prod.mk.injEq] at h
+        obtain ⟨_, rfl, _, _⟩ := h
+        rfl
+      · simp only [hm, Bool.false_eq_true, if_false] at h
+        obtain ⟨ctx, _, h⟩ := Except.bind_eq_ok h
+        cases hc : d.confirmed <;> cases ig <;> by_cases hx : (s.fcntUp == 0xFFFFFFFF) = true <;>
+          simp only [hc, hx, Bool.false_eq_true, if_false, if_true, pure, Except.pure, Except.ok.injEq,
+            Prod.mk.injEq] at h <;>
+          obtain ⟨_, rfl, _, _⟩ := h <;> rfl
+
+theorem prepareBuffer_sid (s : Session) (cfg : Config) (r : RegionId) (data : List Nat) (port : Nat) (conf : Bool)
+    (desc : UplinkDesc) (s' : Session) (h : prepareBuffer s cfg r data port conf = .ok (desc, s')) : sid s' = sid s := by
+  unfold prepareBuffer at h
+  simp only [pure, Except.pure] at h
+  repeat' split at h
+  all_goals (first | (simp only [Except.ok.injEq, Prod.mk.injEq] at h; obtain ⟨_, rfl⟩ := h; rfl) | cases h)
+
+/-- a joined MAC stays joined, with the same address and keys, through … any received frame -/
+theorem macHandleRx_sid (m : MacState) (s : Session) (hm : joinedWith m s) (v : RxView) (mp : Nat) (snr : Int) (cc : Bool)
+    (o : Option RxOut) (m' : MacState) (h : macHandleRx m v mp snr cc = .ok (o, m')) :
+    ∃ s', joinedWith m' s' ∧ sid s' = sid s := by
+  unfold macHandleRx at h
+  unfold joinedWith at hm
+  simp only [hm] at h
+  cases v with
+  | data d =>
+    simp only at h
+    obtain ⟨⟨out, s1, cfg1, reg1⟩, hs, h⟩ := Except.bind_eq_ok h
+    simp only [pure, Except.pure, Except.ok.injEq, Prod.mk.injEq] at h
+    obtain ⟨_, rfl⟩ := h
+    exact ⟨s1, rfl, sessionHandleRx_sid _ _ _ _ _ _ _ _ _ _ _ hs⟩
+  | garbage =>
+    simp only [pure, Except.pure, Except.ok.injEq, Prod.mk.injEq] at h
+    obtain ⟨_, rfl⟩ := h
+    exact ⟨s, hm, rfl⟩
+  | joinAccept j =>
+    simp only [pure, Except.pure, Except.ok.injEq, Prod.mk.injEq] at h
+    obtain ⟨_, rfl⟩ := h
+    exact ⟨s, hm, rfl⟩
+
+theorem window_sid (m : MacState) (s : Session) (hm : joinedWith m s) (f : Option (RxView × Int)) (mp : Nat)
+    (o : Option RxOut) (m' : MacState) (h : window m f mp = .ok (o, m')) : ∃ s', joinedWith m' s' ∧ sid s' = sid s := by
+  unfold window at h
+  cases f with
+  | none =>
+    simp only [pure, Except.pure, Except.ok.injEq, Prod.mk.injEq] at h
+    obtain ⟨_, rfl⟩ := h
+    exact ⟨s, hm, rfl⟩
+  | some f =>
+    obtain ⟨v, snr⟩ := f
+    simp only at h
+    obtain ⟨⟨ro, m1⟩, hrx, h⟩ := Except.bind_eq_ok h
+    obtain ⟨s1, hj1, hs1⟩ := macHandleRx_sid m s hm v mp snr false ro m1 hrx
+    have : m' = m1 := by
+      cases ro with
+      | none => simp only [pure, Except.pure, Except.ok.injEq, Prod.mk.injEq] at h; exact h.2.symm
+      | some ro =>
+        simp only at h
+        split at h <;> (simp only [pure, Except.pure, Except.ok.injEq, Prod.mk.injEq] at h; exact h.2.symm)
+    subst this
+    exact ⟨s1, hj1, hs1⟩
+
+theorem macRx2Complete_sid (m : MacState) (s : Session) (hm : joinedWith m s) :
+    ∃ s', joinedWith (macRx2Complete m).2 s' ∧ sid s' = sid s := by
+  unfold macRx2Complete joinedWith at *
+  simp only [hm]
+  exact ⟨_, rfl, rx2Complete_sid s m.cfg m.region.id⟩
+
+theorem classACycle_sid (m : MacState) (s : Session) (hm : joinedWith m s) (rx1 rx2 : Option (RxView × Int)) (mp1 mp2 : Nat)
+    (r : Response) (dl : Option (Nat × List Nat)) (m' : MacState) (h : classACycle m rx1 rx2 mp1 mp2 = .ok (r, dl, m')) :
+    ∃ s', joinedWith m' s' ∧ sid s' = sid s := by
+  unfold classACycle at h
+  obtain ⟨⟨o1, m1⟩, h1, h⟩ := Except.bind_eq_ok h
+  obtain ⟨s1, hj1, hs1⟩ := window_sid m s hm rx1 mp1 o1 m1 h1
+  cases o1 with
+  | some o =>
+    simp only [pure, Except.pure, Except.ok.injEq, Prod.mk.injEq] at h
+    obtain ⟨_, _, rfl⟩ := h
+    exact ⟨s1, hj1, hs1⟩
+  | none =>
+    simp only at h
+    obtain ⟨⟨o2, m2⟩, h2, h⟩ := Except.bind_eq_ok h
+    obtain ⟨s2, hj2, hs2⟩ := window_sid m1 s1 hj1 rx2 mp2 o2 m2 h2
+    cases o2 with
+    | some o =>
+      simp only [pure, Except.pure, Except.ok.injEq, Prod.mk.injEq] at h
+      obtain ⟨_, _, rfl⟩ := h
+      exact ⟨s2, hj2, by rw [hs2, hs1]⟩
+    | none =>
+      simp only [pure, Except.pure, Except.ok.injEq, Prod.mk.injEq] at h
+      obtain ⟨_, _, rfl⟩ := h
+      obtain ⟨s3, hj3, hs3⟩ := macRx2Complete_sid m2 s2 hj2
+      exact ⟨s3, hj3, by rw [hs3, hs2, hs1]⟩
+
+theorem faultedCycle_sid (m : MacState) (s : Session) (hm : joinedWith m s) (k : Nat) (rx1 rx2 : Option (RxView × Int))
+    (mp1 mp2 : Nat) (m' : MacState) (h : faultedCycle m k rx1 rx2 mp1 mp2 = .ok m') :
+    ∃ s', joinedWith m' s' ∧ sid s' = sid s := by
+  unfold faultedCycle at h
+  split at h
+  · cases Except.pure_eq_ok h; exact ⟨s, hm, rfl⟩
+  · obtain ⟨⟨o1, m1⟩, h1, h⟩ := Except.bind_eq_ok h
+    cases Except.pure_eq_ok h
+    exact window_sid m s hm rx1 mp1 o1 _ h1
+  · obtain ⟨⟨o1, m1⟩, h1, h⟩ := Except.bind_eq_ok h
+    obtain ⟨s1, hj1, hs1⟩ := window_sid m s hm rx1 mp1 o1 m1 h1
+    cases o1 with
+    | some o => cases Except.pure_eq_ok h; exact ⟨s1, hj1, hs1⟩
+    | none =>
+      simp only at h
+      obtain ⟨⟨o2, m2⟩, h2, h⟩ := Except.bind_eq_ok h
+      cases Except.pure_eq_ok h
+      obtain ⟨s2, hj2, hs2⟩ := window_sid m1 s1 hj1 rx2 mp2 o2 _ h2
+      exact ⟨s2, hj2, by rw [hs2, hs1]⟩
+
+theorem macSend_sid {σ} (g : Rng σ) (m : MacState) (s : Session) (hm : joinedWith m s) (data : List Nat) (port : Nat)
+    (conf : Bool) (rs rs' : σ) (o : Option SendOut) (m' : MacState)
+    (h : macSend g m data port conf rs = .ok (o, m', rs')) : ∃ s', joinedWith m' s' ∧ sid s' = sid s := by
+  unfold macSend at h
+  unfold joinedWith at hm
+  simp only [hm] at h
+  obtain ⟨⟨desc, s1⟩, hpb, h⟩ := Except.bind_eq_ok h
+  obtain ⟨dr, _, h⟩ := Except.bind_eq_ok h
+  obtain ⟨⟨tx, region, rs1⟩, _, h⟩ := Except.bind_eq_ok h
+  obtain ⟨pw, _, h⟩ := Except.bind_eq_ok h
+  obtain ⟨⟨rx1, rx2⟩, _, h⟩ := Except.bind_eq_ok h
+  simp only [pure, Except.pure, Except.ok.injEq, Prod.mk.injEq] at h
+  obtain ⟨_, rfl, _⟩ := h
+  exact ⟨s1, rfl, prepareBuffer_sid _ _ _ _ _ _ _ _ hpb⟩
+
+theorem macSetAdr_sid (m : MacState) (on : Bool) (s : Session) (hm : joinedWith m s) :
+    ∃ s', joinedWith (macSetAdr m on) s' ∧ sid s' = sid s := by
+  unfold macSetAdr joinedWith at *
+  cases on
+  · simp only [hm]; exact ⟨_, rfl, rfl⟩
+  · simp only [hm]; exact ⟨s, rfl, rfl⟩
+
+/-- **within a session, address and keys never change**: a step that is not a (re-)join leaves a
+joined MAC joined with the same DevAddr and the same key identities, and an uplink it hands to the
+radio carries that DevAddr -/
+theorem step_session_id {σ} (g : Rng σ) (m m' : MacState) (rs rs' : σ) (ev : Ev) (out : Out) (s : Session)
+    (hm : joinedWith m s) (hj : isJoin ev = false) (h : step g (m, rs) ev = .ok ((m', rs'), out)) :
+    (∃ s', joinedWith m' s' ∧ sid s' = sid s) ∧ ∀ o r d, out = .up o r d → o.frame.devAddr = s.devAddr := by
+  unfold step at h
+  cases ev with
+  | joinAbp da nwk app => simp [isJoin] at hj
+  | joinOtaa fault rx1 rx2 mp1 mp2 => simp [isJoin] at hj
+  | setAdr on =>
+    simp only [pure, Except.pure, Except.ok.injEq, Prod.mk.injEq] at h
+    obtain ⟨⟨rfl, _⟩, rfl⟩ := h
+    exact ⟨macSetAdr_sid m on s hm, fun o r d e => by cases e⟩
+  | setDr dr =>
+    simp only [pure, Except.pure, Except.ok.injEq, Prod.mk.injEq] at h
+    obtain ⟨⟨rfl, _⟩, rfl⟩ := h
+    exact ⟨⟨s, hm, rfl⟩, fun o r d e => by cases e⟩
+  | rxc v snr mp =>
+    simp only at h
+    obtain ⟨rf, _, h1⟩ := Except.bind_eq_ok h
+    obtain ⟨⟨o, m1⟩, hrx, h2⟩ := Except.bind_eq_ok h1
+    simp only [pure, Except.pure, Except.ok.injEq, Prod.mk.injEq] at h2
+    obtain ⟨⟨rfl, _⟩, rfl⟩ := h2
+    exact ⟨macHandleRx_sid m s hm v mp snr true o _ hrx, fun o r d e => by cases e⟩
+  | uplink data fport conf fault rx1 rx2 mp1 mp2 =>
+    simp only at h
+    obtain ⟨⟨o, m1, rs1⟩, hsend, h1⟩ := Except.bind_eq_ok h
+    clear h
+    obtain ⟨out1, s1f, ho, _, hda, _, _⟩ := macSend_fcnt g m s hm data fport conf rs rs1 o m1 hsend
+    obtain ⟨s1, hj1, hs1⟩ := macSend_sid g m s hm data fport conf rs rs1 o m1 hsend
+    subst ho
+    simp only at h1
+    cases fault with
+    | some k =>
+      simp only at h1
+      obtain ⟨m2, hfc, h2⟩ := Except.bind_eq_ok h1
+      simp only [pure, Except.pure, Except.ok.injEq, Prod.mk.injEq] at h2
+      obtain ⟨⟨rfl, _⟩, rfl⟩ := h2
+      obtain ⟨s2, hj2, hs2⟩ := faultedCycle_sid m1 s1 hj1 k rx1 rx2 mp1 mp2 m2 hfc
+      obtain ⟨s3, hj3, hs3⟩ := macRx2Complete_sid m2 s2 hj2
+      exact ⟨⟨s3, hj3, by rw [hs3, hs2, hs1]⟩, fun o r d e => by cases e; exact hda⟩
+    | none =>
+      simp only at h1
+      obtain ⟨⟨r, dl, m2⟩, hcy, h2⟩ := Except.bind_eq_ok h1
+      simp only [pure, Except.pure, Except.ok.injEq, Prod.mk.injEq] at h2
+      obtain ⟨⟨rfl, _⟩, rfl⟩ := h2
+      obtain ⟨s2, hj2, hs2⟩ := classACycle_sid m1 s1 hj1 rx1 rx2 mp1 mp2 r dl m2 hcy
+      exact ⟨⟨s2, hj2, by rw [hs2, hs1]⟩, fun o r d e => by cases e; exact hda⟩
+
+/-- … hence along every join-free stretch of a history: same DevAddr, same keys, on every uplink -/
+theorem history_session_id {σ} (g : Rng σ) (m : MacState) (rs : σ) (evs : List Ev) (ms' : MacState × σ) (outs : List Out)
+    (s : Session) (hm : joinedWith m s) (hj : ∀ ev ∈ evs, isJoin ev = false)
+    (h : run g (m, rs) evs = .ok (ms', outs)) :
+    (∃ s', joinedWith ms'.1 s' ∧ sid s' = sid s) ∧ ∀ o r d, Out.up o r d ∈ outs → o.frame.devAddr = s.devAddr := by
+  induction evs generalizing m rs outs s with
+  | nil =>
+    simp only [run, pure, Except.pure, Except.ok.injEq, Prod.mk.injEq] at h
+    obtain ⟨rfl, rfl⟩ := h
+    exact ⟨⟨s, hm, rfl⟩, fun o r d e => by cases e⟩
+  | cons ev rest ih =>
+    unfold run at h
+    obtain ⟨⟨⟨m1, rs1⟩, o⟩, hstep, h1⟩ := Except.bind_eq_ok h
+    obtain ⟨⟨ms2, os⟩, hrun, h2⟩ := Except.bind_eq_ok h1
+    simp only [pure, Except.pure, Except.ok.injEq, Prod.mk.injEq] at h2
+    obtain ⟨rfl, rfl⟩ := h2
+    obtain ⟨⟨s1, hj1, hs1⟩, hup⟩ := step_session_id g m m1 rs rs1 ev o s hm (hj ev List.mem_cons_self) hstep
+    obtain ⟨⟨s2, hj2, hs2⟩, hups⟩ := ih m1 rs1 os s1 hj1 (fun ev' he => hj ev' (List.mem_cons_of_mem _ he)) hrun
+    refine ⟨⟨s2, hj2, by rw [hs2, hs1]⟩, ?_⟩
+    intro so r d hmem
+    simp only [List.mem_cons] at hmem
+    rcases hmem with e | hmem
+    · exact hup so r d e.symm
+    · have := hups so r d hmem
+      have hd : s1.devAddr = s.devAddr := by
+        have := congrArg Prod.fst hs1; exact this
+      rw [this, hd]
+
 /-! ## the counter never wraps -/
 
 /-- the session counter fits 32 bits -/
@@ -968,6 +1228,8 @@ end C06
 #print axioms C06.history_no_counter_reuse
 #print axioms C06.history_fcnt_32bit
 #print axioms C06.join_starts_fresh
+#print axioms C06.step_session_id
+#print axioms C06.history_session_id
 #print axioms C06.send_after_expiry_reuses
 #print axioms C06.rx2Complete_fcnt
 #print axioms C06.handleRx_fcnt
